@@ -316,8 +316,11 @@ def build(spec, made=None):
                 setattr(o, k, B(v))
             return keep(o)
         if cls is WithState:
+            # the payload first: a reference inside it must not resolve to the object under construction (a cyclic value is
+            # outside every grammar here: dumps raises RecursionError on it)
+            payload = B(spec[2][0][1]) if spec[2] else None
             o = keep(WithState())
-            o.payload = B(spec[2][0][1]) if spec[2] else None
+            o.payload = payload
             return o
         if cls is FalsyState:
             return keep(FalsyState(B(spec[2][0][1]) if spec[2] else False))
